@@ -113,3 +113,12 @@ func (v *VContainer) Consistent() bool {
 }
 
 func VConsistentSubscriber(s *Subscriber) bool { return (&VContainer{c: s.items}).Consistent() }
+
+// ---- end-to-end part: bridges to the process-global registry ----
+
+type VEtcdClient = internal.EtcdClient
+
+func VResetGlobal()                                        { internal.VResetGlobal() }
+func VInjectClient(eps []string, cli internal.EtcdClient)  { internal.VInjectClient(eps, cli) }
+func VReloadGlobal(eps []string, cli internal.EtcdClient) bool { return internal.VReloadGlobal(eps, cli) }
+func VGlobalValues(eps []string, key string) string        { return internal.VGlobalValues(eps, key) }
